@@ -3,6 +3,7 @@ C20 — Temporal context of every event equals the set of processes ongoing at t
 Theorems about `HedVerif.Events` (model of `EventManager`), for all histories.
 -/
 import HedVerif.Model.Events
+import HedVerif.Props.C10
 namespace HedVerif.C20
 open HedVerif.Events
 
@@ -545,6 +546,16 @@ theorem step_spec {fold : Str → Str} {ts : List Int} {n : Nat} {st st1 : State
     apply List.map_congr_left
     intro p _
     exact (resolve_skip p (by simp [markerKey, hitem])).symm
+  | inset _nm c =>
+    simp only [hitem] at hstep
+    injection hstep with hstep
+    subst hstep
+    refine ⟨hinv, ?_⟩
+    simp only [look, hitem]
+    congr 1
+    apply List.map_congr_left
+    intro p _
+    exact (resolve_skip p (by simp [markerKey, hitem])).symm
 
 /-- the scan with its dictionary equals the look-ahead description -/
 theorem run_look {fold : Str → Str} {ts : List Int} {n : Nat} (acts : List Act) (st st' : State)
@@ -639,6 +650,10 @@ theorem context_look {fold : Str → Str} {ts : List Int} (hs : Sorted ts) {i : 
       simp only [timed] at ih
       exact ih hfr c
     | plain cid =>
+      simp only [look, hitem, timed, List.map_cons, specProcs]
+      simp only [timed] at ih
+      exact ih hfr c
+    | inset _nm cid =>
       simp only [look, hitem, timed, List.map_cons, specProcs]
       simp only [timed] at ih
       exact ih hfr c
@@ -747,6 +762,9 @@ theorem mem_look_duration {fold : Str → Str} {ts : List Int} {n : Nat} {acts :
       | plain cid =>
         obtain ⟨p, hp, h⟩ := ih ha c0
         exact ⟨p, by simp only [look, hb]; exact hp, h⟩
+      | inset _nm cid =>
+        obtain ⟨p, hp, h⟩ := ih ha c0
+        exact ⟨p, by simp only [look, hb]; exact hp, h⟩
 
 theorem mem_look_onset {fold : Str → Str} {ts : List Int} {n : Nat} (pre : List Act) {rest : List Act}
     {a : Act} {name : Str} {c : Nat} (hitem : a.item = .onset name c) (c0 : Nat) :
@@ -766,6 +784,9 @@ theorem mem_look_onset {fold : Str → Str} {ts : List Int} {n : Nat} (pre : Lis
       obtain ⟨p, hp, h⟩ := ih c0
       exact ⟨p, by simp only [List.cons_append, look, hb]; exact hp, h⟩
     | plain cid =>
+      obtain ⟨p, hp, h⟩ := ih c0
+      exact ⟨p, by simp only [List.cons_append, look, hb]; exact hp, h⟩
+    | inset _nm cid =>
       obtain ⟨p, hp, h⟩ := ih c0
       exact ⟨p, by simp only [List.cons_append, look, hb]; exact hp, h⟩
 
@@ -877,6 +898,9 @@ theorem look_start {fold : Str → Str} {ts : List Int} {n : Nat} {acts : List A
     | plain cid =>
       simp only [look, hb] at hp
       obtain ⟨a, ha, h⟩ := ih hp; exact ⟨a, List.mem_cons_of_mem _ ha, h⟩
+    | inset _nm cid =>
+      simp only [look, hb] at hp
+      obtain ⟨a, ha, h⟩ := ih hp; exact ⟨a, List.mem_cons_of_mem _ ha, h⟩
 
 theorem base_look {fold : Str → Str} {ts : List Int} {n i : Nat} (Q : Int → Bool) (acts : List Act)
     (hQ : ∀ a ∈ acts, (a.idx == i) = Q a.time) (c : Nat) :
@@ -900,6 +924,9 @@ theorem base_look {fold : Str → Str} {ts : List Int} {n i : Nat} (Q : Int → 
       simp only [look, hitem, timed, List.map_cons, specProcs]
       exact ih hr c
     | plain cid =>
+      simp only [look, hitem, timed, List.map_cons, specProcs]
+      exact ih hr c
+    | inset _nm cid =>
       simp only [look, hitem, timed, List.map_cons, specProcs]
       exact ih hr c
 
@@ -1059,6 +1086,7 @@ theorem accept_ordered (fold : Str → Str) (rows : List Row)
           · injection hs with hs; subst hs; simp
         · cases hs
         · cases hs
+        · cases hs
   exact this _ _ _ he
 
 /-! ### order of the entries -/
@@ -1096,6 +1124,7 @@ theorem specProcs_sublist (fold : Str → Str) (ts : List Int) (acts : List Act)
     · exact List.Sublist.cons_cons _ ih
     · exact List.Sublist.cons _ ih
     · exact List.Sublist.cons_cons _ ih
+    · exact List.Sublist.cons _ ih
     · exact List.Sublist.cons _ ih
 
 /-- **order.** The processes of the specification — hence every context and base entry, which are filtered
@@ -1142,5 +1171,604 @@ example : ∃ b, build id [⟨0, [.onset ['A'] 1], []⟩, ⟨8, [.onset ['A'] 2]
 
 example : build id [⟨8, [], []⟩, ⟨0, [], []⟩] = .error .unordered :=
   reject_unordered id _ 0 1 8 0 (by omega) (by rfl) (by rfl) (by omega)
+
+/-! ## text layer: process content, Inset, Onset+Duration, unfolding -/
+
+/-- **process content.** `TemporalEvent._split_group`: with an inner group the content is the group itself
+without its Onset and Duration tags — every other child (Def, Delay, inner groups, other tags) is kept, in
+order; without an inner group it is the short tag of the last Def child (or `None`). -/
+theorem process_content_spec (ks : List TNode) :
+    (ks.any isGroup = true →
+      splitGroup ks = .group (ks.filter notAnchor) ∧
+      (∀ k ∈ ks, isGroup k = true → k ∈ ks.filter notAnchor) ∧
+      (∀ t, TNode.tag t ∈ ks → (TNode.tag t ∈ ks.filter notAnchor ↔ (isB kOnset t || isB kDuration t) = false))) ∧
+    (ks.any isGroup = false →
+      splitGroup ks = match lastDef ks with
+        | some t => .tag (canonTag t)
+        | none => .tag kNone) := by
+  refine ⟨fun h => ⟨by simp [splitGroup, h], ?_, ?_⟩, fun h => by simp only [splitGroup, h]; rfl⟩
+  · intro k hk hg
+    refine List.mem_filter.2 ⟨hk, ?_⟩
+    cases k with
+    | tag t => simp [isGroup] at hg
+    | group g => rfl
+  · intro t ht
+    simp [List.mem_filter, ht, notAnchor]
+
+/-- **Inset.** A group with an Inset tag (and no Onset/Offset/Duration tag) is not a temporal group for the
+manager: it is classified as remainder … -/
+theorem inset_is_remainder (vals : Str → Option Int) (id : Nat) (ks : List TNode)
+    (h1 : (directTags ks).find? (fun t => isB kOnset t || isB kOffset t) = none)
+    (h2 : (directTags ks).filter (isB kDuration) = [])
+    (h3 : (directTags ks).any (isB kInset) = true) :
+    ∃ nm, classify vals id (.group ks) = .ok (.inset nm id) := by
+  simp [classify, h1, h2, h3]
+
+/-- … and is never met by the scan: it opens, closes and delays nothing and stays in the row's remainder
+(`remainder_plain`). -/
+theorem inset_not_scanned (rows : List Row) :
+    ∀ a ∈ history rows, isMarker a.item = true ∨ isDuration a.item = true := by
+  have : ∀ k (l : List FRow), ∀ a ∈ actsFrom k l, isMarker a.item = true ∨ isDuration a.item = true := by
+    intro k l
+    induction l generalizing k with
+    | nil => intro a ha; simp [actsFrom] at ha
+    | cons r rs ih =>
+      intro a ha
+      simp only [actsFrom, List.mem_append] at ha
+      rcases ha with ha | ha
+      · simp only [rowActs, List.mem_map, List.mem_append, List.mem_filter] at ha
+        obtain ⟨it, hit, rfl⟩ := ha
+        rcases hit with h | h
+        · exact Or.inl h.2
+        · exact Or.inr h.2
+      · exact ih (k + 1) a ha
+  exact this 0 _
+
+/-- **Onset with Duration in one group.** The first search (Onset/Offset anchors) takes the group: it is an
+Onset process named by its first Def, whatever Duration tags it holds; its end is that of an Onset process
+(`boundaries_restart`), the Duration value is not used. (The validator rejects such a group.) -/
+theorem onset_duration_is_onset (vals : Str → Option Int) (id : Nat) (ks : List TNode) (t ext : Str)
+    (h1 : (directTags ks).find? (fun t => isB kOnset t || isB kOffset t) = some t)
+    (h2 : isB kOnset t = true) (h3 : (defExts ks).head? = some ext) :
+    classify vals id (.group ks) = .ok (.onset ext id) := by
+  simp [classify, h1, h2, h3]
+
+theorem filtTags_append (p : Str → Bool) (a b : List TNode) :
+    filtTags p (a ++ b) = filtTags p a ++ filtTags p b := by
+  induction a with
+  | nil => simp [filtTags]
+  | cons n r ih =>
+    cases n with
+    | tag t => simp only [List.cons_append, filtTags]; split <;> simp [ih]
+    | group ks => simp only [List.cons_append, filtTags]; split <;> simp [ih]
+
+theorem filtGroups_append (p : Str → Bool) (a b : List TNode) :
+    filtGroups p (a ++ b) = filtGroups p a ++ filtGroups p b := by
+  induction a with
+  | nil => simp [filtGroups]
+  | cons n r ih =>
+    cases n with
+    | tag t => simp [filtGroups, ih]
+    | group ks =>
+      simp only [List.cons_append, filtGroups]
+      split
+      · exact ih
+      · split <;> simp [ih]
+
+theorem filterHed_append (T N : List Str) (rg : Bool) (a b : List TNode) :
+    filterHed T N rg (a ++ b) = filterHed T N rg a ++ filterHed T N rg b := by
+  cases rg <;>
+    simp [filterHed, filtTop, filtTags_append, filtGroups_append, List.filter_append]
+
+theorem filterHed_flatMap {α : Type} (T N : List Str) (rg : Bool) (xs : List α) (g : α → List TNode) :
+    filterHed T N rg (xs.flatMap g) = xs.flatMap (fun x => filterHed T N rg (g x)) := by
+  induction xs with
+  | nil => cases rg <;> simp [filterHed, filtTop, filtTags, filtGroups]
+  | cons x xs ih => simp [List.flatMap_cons, filterHed_append, ih]
+
+/-- **unfolding commutes with context construction.** Filtering the context of a row (`_get_base_contexts`:
+types and their definitions removed with their groups) gives the context built from the individually filtered
+process texts; the same for `base`. Filtering does not depend on which other processes are ongoing. -/
+theorem unfold_commutes (T N : List Str) (tbl : List TNode) (b : Built) (i : Nat) :
+    filterHed T N true (ctxNodes tbl b i) =
+      (b.procs.filter (inContext i)).flatMap (fun p => filterHed T N true [contentOf tbl p.content]) ∧
+    filterHed T N true (baseNodes tbl b i) =
+      (b.procs.filter (fun p => p.start == i)).flatMap (fun p => filterHed T N true [contentOf tbl p.content]) := by
+  have h : ∀ l : List Proc, (l.map (·.content)).map (contentOf tbl) = l.flatMap (fun p => [contentOf tbl p.content]) := by
+    intro l; induction l with
+    | nil => rfl
+    | cons x xs ih => simp [ih]
+  constructor
+  · simp only [ctxNodes, contextAt, h, filterHed_flatMap]
+  · simp only [baseNodes, baseAt, h, filterHed_flatMap]
+
+/-! ## the manager's frame is the time-point enumeration of the file (C10's `timePoints`) -/
+
+/-- the temporal marker C10's machine sees in an item -/
+def markerOf : Item → Option Temporal.Marker
+  | .onset n _ => some ⟨.onset, n⟩
+  | .offset n => some ⟨.offset, n⟩
+  | .inset n _ => some ⟨.inset, n⟩
+  | .duration _ _ => none
+  | .plain _ => none
+
+def markersOf (its : List Item) : List Temporal.Marker := its.filterMap markerOf
+
+/-- the file as C10's model reads it -/
+def toT (r : Row) : Temporal.Row :=
+  ⟨r.time, markersOf r.items, r.delayed.map fun di => (di.1, markersOf [di.2])⟩
+
+def projT (r : Temporal.TRow) : Int × List Temporal.Marker := (r.time, r.markers)
+def projE (r : FRow) : Int × List Temporal.Marker := (r.time, markersOf r.items)
+
+theorem markersOf_append (a b : List Item) : markersOf (a ++ b) = markersOf a ++ markersOf b := by
+  simp [markersOf, List.filterMap_append]
+
+theorem own_proj (rows : List Row) (i : Nat) :
+    (Temporal.splitRows.own i (rows.map toT)).map projT = (ownRows rows).map projE := by
+  induction rows generalizing i with
+  | nil => rfl
+  | cons r rs ih =>
+    simp only [List.map_cons, Temporal.splitRows.own, ownRows] at ih ⊢
+    rw [ih]
+    rfl
+
+theorem del_proj (rows : List Row) (i : Nat) :
+    (Temporal.splitRows.del i (rows.map toT)).map projT = (delayRows rows).map projE := by
+  induction rows generalizing i with
+  | nil => rfl
+  | cons r rs ih =>
+    simp only [List.map_cons, Temporal.splitRows.del, delayRows, List.map_append, ih]
+    congr 1
+    simp [toT, projT, projE, Function.comp_def]
+
+theorem split_proj (rows : List Row) :
+    (Temporal.splitRows (rows.map toT)).map projT = (splitRows rows).map projE := by
+  simp only [Temporal.splitRows, splitRows, List.map_append, own_proj, del_proj]
+
+theorem insert_proj {x : Temporal.TRow} {x' : FRow} (hx : projT x = projE x') :
+    ∀ (l : List Temporal.TRow) (l' : List FRow), l.map projT = l'.map projE →
+      (Temporal.insertRow x l).map projT = (insertRow x' l').map projE := by
+  intro l
+  induction l with
+  | nil =>
+    intro l' h
+    cases l' with
+    | nil => simp [Temporal.insertRow, insertRow, hx]
+    | cons _ _ => simp at h
+  | cons y ys ih =>
+    intro l' h
+    cases l' with
+    | nil => simp at h
+    | cons y' ys' =>
+      simp only [List.map_cons, List.cons.injEq] at h
+      have hxt : x.time = x'.time := congrArg Prod.fst hx
+      have hyt : y.time = y'.time := congrArg Prod.fst h.1
+      simp only [Temporal.insertRow, insertRow, hxt, hyt]
+      split
+      · simp [hx, h.1, h.2]
+      · simp [h.1, ih ys' h.2]
+
+theorem sort_proj (l : List Temporal.TRow) (l' : List FRow) (h : l.map projT = l'.map projE) :
+    (Temporal.sortRows l).map projT = (sortRows l').map projE := by
+  induction l generalizing l' with
+  | nil =>
+    cases l' with
+    | nil => rfl
+    | cons _ _ => simp at h
+  | cons x xs ih =>
+    cases l' with
+    | nil => simp at h
+    | cons x' xs' =>
+      simp only [List.map_cons, List.cons.injEq] at h
+      exact insert_proj h.1 _ _ (ih xs' h.2)
+
+/-- `filter_series_by_onset` seen from the right, as C10 models it: runs of equal times joined -/
+def points : List FRow → List (Int × List Item)
+  | [] => []
+  | x :: xs =>
+    match points xs with
+    | [] => [(x.time, x.items)]
+    | (t, its) :: ys => if x.time = t then (x.time, x.items ++ its) :: ys else (x.time, x.items) :: (t, its) :: ys
+
+theorem merge_proj (l : List Temporal.TRow) (l' : List FRow) (h : l.map projT = l'.map projE) :
+    (Temporal.mergeRows l).map projT = (points l').map (fun p => (p.1, markersOf p.2)) := by
+  induction l generalizing l' with
+  | nil =>
+    cases l' with
+    | nil => rfl
+    | cons _ _ => simp at h
+  | cons x xs ih =>
+    cases l' with
+    | nil => simp at h
+    | cons x' xs' =>
+      simp only [List.map_cons, List.cons.injEq] at h
+      have hxt : x.time = x'.time := congrArg Prod.fst h.1
+      have hxm : x.markers = markersOf x'.items := congrArg Prod.snd h.1
+      have := ih xs' h.2
+      simp only [Temporal.mergeRows, points]
+      cases hm : Temporal.mergeRows xs with
+      | nil =>
+        cases hp : points xs' with
+        | nil => simp [projT, hxt, hxm]
+        | cons q qs => simp [hm, hp] at this
+      | cons y ys =>
+        cases hp : points xs' with
+        | nil => simp [hm, hp] at this
+        | cons q qs =>
+          obtain ⟨t, its⟩ := q
+          simp only [hm, hp, List.map_cons, List.cons.injEq, projT, Prod.mk.injEq] at this
+          obtain ⟨⟨ht, hmk⟩, hrest⟩ := this
+          simp only [hxt, ht]
+          split <;> simp [projT, hxt, hxm, ht, hmk, hrest, markersOf_append]
+
+theorem points_cons (r : FRow) (rs : List FRow) :
+    points (r :: rs) =
+      (r.time, r.items ++ groupItems r.time rs) :: points (rs.dropWhile (fun s => s.time == r.time)) := by
+  induction rs generalizing r with
+  | nil => simp [points, groupItems]
+  | cons s ss ih =>
+    rw [points, ih s]
+    by_cases e : r.time = s.time
+    · simp [e, groupItems]
+    · have e' : ¬ s.time = r.time := fun h => e h.symm
+      simp [e, groupItems, e', ih s]
+
+/-- the rows of the merged frame that stand for a time point: those whose onset differs from the previous row's -/
+def firstRows : Option Int → List FRow → List FRow
+  | _, [] => []
+  | prev, x :: xs => if prev = some x.time then firstRows (some x.time) xs else x :: firstRows (some x.time) xs
+
+theorem firstRows_merge_some (t : Int) (l : List FRow) :
+    (firstRows (some t) (merge (some t) l)).map (fun r => (r.time, r.items)) =
+      points (l.dropWhile (fun s => s.time == t)) := by
+  induction l generalizing t with
+  | nil => rfl
+  | cons r rs ih =>
+    simp only [merge, firstRows]
+    by_cases e : r.time = t
+    · simp [e, ih]
+    · have e' : ¬ (some t = some r.time) := fun h => e (by injection h with h; exact h.symm)
+      simp only [e', if_false, List.map_cons, ih r.time]
+      simp [e, points_cons]
+
+theorem firstRows_merge_none (l : List FRow) :
+    (firstRows none (merge none l)).map (fun r => (r.time, r.items)) = points l := by
+  cases l with
+  | nil => rfl
+  | cons r rs =>
+    simp only [merge, firstRows, reduceCtorEq, if_false, List.map_cons, firstRows_merge_some, points_cons]
+
+/-- **time points.** The rows of the manager's merged frame that start a time point are, in order, exactly the
+time points C10's model enumerates for the same file (same times, same temporal markers) … -/
+theorem frame_is_timepoints (rows : List Row) :
+    (Temporal.timePoints (rows.map toT)).map (fun tp => (tp.time, tp.markers)) =
+      (firstRows none (merge none (frame rows))).map (fun r => (r.time, markersOf r.items)) := by
+  have h := merge_proj _ _ (sort_proj _ _ (split_proj rows))
+  have h2 := firstRows_merge_none (frame rows)
+  unfold Temporal.timePoints
+  have h3 : ∀ l : List Temporal.TRow, l.map (fun tp => (tp.time, tp.markers)) = l.map projT := fun _ => rfl
+  rw [h3, h]
+  show List.map _ (points (frame rows)) = _
+  rw [← h2, List.map_map]
+  rfl
+
+/-- … which by C10's `timePoints_spec` are the strictly increasing distinct effective times (own onsets and
+Delay-shifted times) of the file, each with everything that happens at that time. -/
+theorem frame_times_are_effective_times (rows : List Row) :
+    (firstRows none (merge none (frame rows))).map (·.time) = C10.effTimes (rows.map toT) ∧
+    (C10.effTimes (rows.map toT)).Pairwise (· < ·) ∧
+    ∀ τ, τ ∈ C10.effTimes (rows.map toT) ↔ ∃ r ∈ Temporal.splitRows (rows.map toT), r.time = τ := by
+  refine ⟨?_, (C10.timePoints_spec _).2.1, (C10.timePoints_spec _).2.2⟩
+  have := congrArg (List.map Prod.fst) (frame_is_timepoints rows)
+  simp only [List.map_map, Function.comp_def] at this
+  rw [C10.effTimes]
+  exact this.symm
+
+/-! ## files that temporal validation accepts are never rejected by the constructor -/
+
+open HedVerif.Temporal (Marker MKind) in
+/-- C10's transition (`Temporal.handle`) run over a flat sequence of markers without error -/
+def seqOK (fold : Str → Str) : List Str → List Temporal.Marker → Prop
+  | _, [] => True
+  | op, m :: ms => (Temporal.handle op m.kind (fold m.name)).2 = none ∧
+      seqOK fold (Temporal.handle op m.kind (fold m.name)).1 ms
+
+def seqOp (fold : Str → Str) : List Str → List Temporal.Marker → List Str
+  | op, [] => op
+  | op, m :: ms => seqOp fold (Temporal.handle op m.kind (fold m.name)).1 ms
+
+theorem seqOK_append (fold : Str → Str) (op : List Str) (a b : List Temporal.Marker) :
+    seqOK fold op (a ++ b) ↔ seqOK fold op a ∧ seqOK fold (seqOp fold op a) b := by
+  induction a generalizing op with
+  | nil => simp [seqOK, seqOp]
+  | cons m ms ih => simp only [List.cons_append, seqOK, seqOp, ih, and_assoc]
+
+theorem go_ok (fold : Str → Str) (ms : List Temporal.Marker) (st : List Str × List Str) (i : Nat)
+    (h : (Temporal.stepPoint.go fold st i ms).2 = []) :
+    seqOK fold st.1 ms ∧ (Temporal.stepPoint.go fold st i ms).1 = seqOp fold st.1 ms := by
+  induction ms generalizing st i with
+  | nil => simp [seqOK, seqOp, Temporal.stepPoint.go]
+  | cons m rest ih =>
+    simp only [Temporal.stepPoint.go, Temporal.stepMarker] at h ⊢
+    by_cases hc : fold m.name ∈ st.2
+    · simp [hc] at h
+    · have hc' : ¬ st.2.contains (fold m.name) = true := by simpa using hc
+      simp only [hc, hc', if_false] at h ⊢
+      cases he : (Temporal.handle st.1 m.kind (fold m.name)).2 with
+      | some x => simp [he] at h
+      | none =>
+        simp only [he] at h ⊢
+        have := ih _ _ h
+        exact ⟨⟨he, this.1⟩, this.2⟩
+
+theorem run_ok (fold : Str → Str) (tps : List (List Temporal.Marker)) (op : List Str) (t : Nat)
+    (h : Temporal.run fold op t tps = []) : seqOK fold op tps.flatten := by
+  induction tps generalizing op t with
+  | nil => simp [seqOK]
+  | cons ms rest ih =>
+    simp only [Temporal.run, List.append_eq_nil_iff, List.map_eq_nil_iff] at h
+    have hg := go_ok fold ms (op, []) 0 h.1
+    simp only [List.flatten_cons, seqOK_append]
+    refine ⟨hg.1, ?_⟩
+    rw [← hg.2]
+    exact ih _ _ h.2
+
+def notInset (m : Temporal.Marker) : Bool := m.kind != .inset
+
+theorem seq_filter (fold : Str → Str) (ms : List Temporal.Marker) (op : List Str) :
+    seqOp fold op (ms.filter notInset) = seqOp fold op ms ∧
+    (seqOK fold op ms → seqOK fold op (ms.filter notInset)) := by
+  induction ms generalizing op with
+  | nil => simp [seqOK]
+  | cons m rest ih =>
+    obtain ⟨k, n⟩ := m
+    cases k <;> simp only [List.filter_cons, notInset, seqOp, seqOK, Temporal.handle] <;>
+      simp only [bne_self_eq_false, Bool.false_eq_true, if_false, reduceCtorEq, bne_iff_ne, ne_eq,
+        not_false_eq_true, decide_true, if_true, seqOp, seqOK, Temporal.handle]
+    · exact ⟨(ih _).1, fun h => ⟨h.1, (ih _).2 h.2⟩⟩
+    · split
+      · exact ⟨(ih _).1, fun h => ⟨h.1, (ih _).2 h.2⟩⟩
+      · exact ⟨(ih _).1, fun h => ⟨h.1, (ih _).2 h.2⟩⟩
+    · split
+      · exact ⟨(ih _).1, fun h => (ih _).2 h.2⟩
+      · exact ⟨(ih _).1, fun h => (ih _).2 h.2⟩
+
+/-- the Onset/Offset marker the scan meets in an item -/
+def markNI : Item → Option Temporal.Marker
+  | .onset n _ => some ⟨.onset, n⟩
+  | .offset n => some ⟨.offset, n⟩
+  | .duration _ _ => none
+  | .plain _ => none
+  | .inset _ _ => none
+
+def markerSeq (acts : List Act) : List Temporal.Marker := acts.filterMap fun a => markNI a.item
+
+/-- `onset_dict` and C10's open-scope list hold the same names -/
+def Keys (op : List Str) (opn : Open) : Prop := op.Nodup ∧ ∀ k, k ∈ op ↔ ∃ j, (k, j) ∈ opn
+
+theorem closeIfOpen_mem {k : Str} {i : Nat} {st : State} {e : Str × Nat} :
+    e ∈ (closeIfOpen k i st).opn ↔ e ∈ st.opn ∧ e.1 ≠ k := by
+  unfold closeIfOpen
+  cases hg : getOpen k st.opn with
+  | some j => exact mem_delOpen
+  | none =>
+    simp only
+    constructor
+    · intro h
+      refine ⟨h, fun hk => ?_⟩
+      exact getOpen_none hg e.2 (by rw [← hk]; exact h)
+    · exact fun h => h.1
+
+theorem handle_offset_mem {op : List Str} {k : Str} (h : k ∈ op) :
+    Temporal.handle op .offset k = (op.erase k, none) := by simp [Temporal.handle, h]
+
+theorem handle_offset_not {op : List Str} {k : Str} (h : k ∉ op) :
+    (Temporal.handle op .offset k).2 ≠ none := by simp [Temporal.handle, h]
+
+theorem run_never_unmatched (fold : Str → Str) (ts : List Int) (acts : List Act) (st : State) (op : List Str)
+    (hk : Keys op st.opn) (h : seqOK fold op (markerSeq acts)) : ∃ st', run fold ts st acts = .ok st' := by
+  induction acts generalizing st op with
+  | nil => exact ⟨st, rfl⟩
+  | cons a rest ih =>
+    simp only [run]
+    cases hitem : a.item with
+    | onset name c =>
+      simp only [markerSeq, List.filterMap_cons, hitem, markNI, seqOK, Temporal.handle] at h
+      simp only [step, hitem]
+      refine ih _ (Temporal.insertKey op (fold name)) ⟨?_, ?_⟩ h.2
+      · unfold Temporal.insertKey
+        split
+        · exact hk.1
+        · rename_i hc
+          exact List.nodup_cons.2 ⟨by simpa using hc, hk.1⟩
+      · intro k'
+        have hm : k' ∈ Temporal.insertKey op (fold name) ↔ k' = fold name ∨ k' ∈ op := by
+          unfold Temporal.insertKey
+          split
+          · rename_i hc
+            have : fold name ∈ op := by simpa using hc
+            constructor
+            · exact Or.inr
+            · rintro (rfl | h') <;> assumption
+          · simp
+        rw [hm, hk.2]
+        simp only [List.mem_cons, Prod.mk.injEq, closeIfOpen_mem]
+        constructor
+        · rintro (rfl | ⟨j, hj⟩)
+          · exact ⟨_, Or.inl ⟨rfl, rfl⟩⟩
+          · by_cases e : k' = fold name
+            · exact ⟨_, Or.inl ⟨e, rfl⟩⟩
+            · exact ⟨j, Or.inr ⟨hj, e⟩⟩
+        · rintro ⟨j, (⟨e, _⟩ | ⟨hj, _⟩)⟩
+          · exact Or.inl e
+          · exact Or.inr ⟨j, hj⟩
+    | offset name =>
+      simp only [markerSeq, List.filterMap_cons, hitem, markNI, seqOK] at h
+      by_cases hmem : fold name ∈ op
+      · rw [handle_offset_mem hmem] at h
+        obtain ⟨j, hj⟩ := (hk.2 _).1 hmem
+        cases hg : getOpen (fold name) st.opn with
+        | none => exact absurd hj (getOpen_none hg j)
+        | some j' =>
+          simp only [step, hitem, hg]
+          refine ih _ (op.erase (fold name)) ⟨hk.1.erase _, ?_⟩ h.2
+          intro k'
+          rw [hk.1.mem_erase_iff, hk.2]
+          constructor
+          · rintro ⟨hne, j, hj⟩; exact ⟨j, mem_delOpen.2 ⟨hj, hne⟩⟩
+          · rintro ⟨j, hj⟩
+            have := mem_delOpen.1 hj
+            exact ⟨this.2, j, this.1⟩
+      · exact absurd h.1 (handle_offset_not hmem)
+    | duration len c =>
+      simp only [markerSeq, List.filterMap_cons, hitem, markNI] at h
+      simp only [step, hitem]
+      exact ih _ op hk h
+    | plain c =>
+      simp only [markerSeq, List.filterMap_cons, hitem, markNI] at h
+      simp only [step, hitem]
+      exact ih _ op hk h
+    | inset nm c =>
+      simp only [markerSeq, List.filterMap_cons, hitem, markNI] at h
+      simp only [step, hitem]
+      exact ih _ op hk h
+
+theorem markersOf_filter (its : List Item) : (markersOf its).filter notInset = its.filterMap markNI := by
+  induction its with
+  | nil => rfl
+  | cons x xs ih =>
+    have ih' : (List.filterMap markerOf xs).filter notInset = xs.filterMap markNI := ih
+    cases x <;> simp [markersOf, markerOf, markNI, notInset, List.filter_cons, List.filterMap_cons, ih']
+
+theorem rowActs_markers (i : Nat) (r : FRow) : markerSeq (rowActs i r) = r.items.filterMap markNI := by
+  simp only [markerSeq, rowActs, List.filterMap_map, List.filterMap_append, Function.comp_def]
+  have h1 : ∀ l : List Item, (l.filter isMarker).filterMap markNI = l.filterMap markNI := by
+    intro l; induction l with
+    | nil => rfl
+    | cons x xs ih => cases x <;> simp [List.filter_cons, List.filterMap_cons, isMarker, markNI, ih]
+  have h2 : ∀ l : List Item, (l.filter isDuration).filterMap markNI = [] := by
+    intro l; induction l with
+    | nil => rfl
+    | cons x xs ih => cases x <;> simp [List.filter_cons, List.filterMap_cons, isDuration, markNI, ih]
+  simp [h1, h2]
+
+theorem actsFrom_markers (k : Nat) (l : List FRow) :
+    markerSeq (actsFrom k l) = l.flatMap (fun r => r.items.filterMap markNI) := by
+  induction l generalizing k with
+  | nil => rfl
+  | cons r rs ih =>
+    have : ∀ a b : List Act, markerSeq (a ++ b) = markerSeq a ++ markerSeq b := by
+      intro a b; simp [markerSeq, List.filterMap_append]
+    simp only [actsFrom, this, rowActs_markers, ih, List.flatMap_cons]
+
+theorem firstRows_flatMap (g : List Item → List Temporal.Marker) (hg : g [] = []) (prev : Option Int)
+    (l : List FRow) :
+    (merge prev l).flatMap (fun r => g r.items) = (firstRows prev (merge prev l)).flatMap (fun r => g r.items) := by
+  induction l generalizing prev with
+  | nil => rfl
+  | cons r rs ih =>
+    simp only [merge, firstRows]
+    by_cases e : prev = some r.time
+    · simp [e, hg, ih]
+    · simp [e, ih]
+
+/-- **valid histories are never rejected.** If the onsets are non-decreasing and C10's temporal machine
+(`Temporal.run` on the time points of the file, Insets included) reports no error, the constructor does not
+raise: `onset_dict.pop` always finds its key. -/
+theorem valid_history_never_rejected (fold : Str → Str) (rows : List Row)
+    (hord : nonDecreasing (rows.map (·.time)) = true)
+    (hT : Temporal.run fold [] 0 ((Temporal.timePoints (rows.map toT)).map (·.markers)) = []) :
+    ∃ b, build fold rows = .ok b := by
+  have h1 : (Temporal.timePoints (rows.map toT)).map (·.markers) =
+      (firstRows none (merge none (frame rows))).map (fun r => markersOf r.items) := by
+    have := congrArg (List.map Prod.snd) (frame_is_timepoints rows)
+    simpa [List.map_map, Function.comp_def] using this
+  rw [h1] at hT
+  have h2 := (seq_filter fold _ []).2 (run_ok fold _ [] 0 hT)
+  have h3 : markerSeq (history rows) =
+      ((firstRows none (merge none (frame rows))).map (fun r => markersOf r.items)).flatten.filter notInset := by
+    rw [history, actsFrom_markers, firstRows_flatMap _ rfl]
+    generalize firstRows none (merge none (frame rows)) = L
+    induction L with
+    | nil => rfl
+    | cons r rs ih => simp [List.flatMap_cons, List.filter_append, markersOf_filter, ih]
+  rw [← h3] at h2
+  obtain ⟨st, hst⟩ := run_never_unmatched fold ((frame rows).map (·.time)) (history rows) ⟨[], []⟩ []
+    ⟨List.nodup_nil, by simp⟩ h2
+  have hb : build fold rows = .ok ⟨(frame rows).map (·.time), finish ((frame rows).map (·.time)).length st,
+      (merge none (frame rows)).map fun r => plainOf r.items⟩ := by
+    simp only [build, hord, if_true, hst]
+  exact ⟨_, hb⟩
+
+/-! ### the same on the text of the file -/
+
+/-- classification raises only for an Onset/Offset group without Def (`IndexError`) or a Duration without a
+usable value (`TypeError`) — both rejected by string validation -/
+theorem classify_ok (vals : Str → Option Int) (id : Nat) (n : TNode)
+    (hdef : ∀ ks, n = .group ks →
+      ((directTags ks).find? (fun t => isB kOnset t || isB kOffset t)).isSome = true → defExts ks ≠ [])
+    (hval : ∀ ks t, n = .group ks →
+      ((directTags ks).filter (isB kDuration)).getLast? = some t → (vals t).isSome = true) :
+    ∃ it, classify vals id n = .ok it := by
+  cases n with
+  | tag t => exact ⟨_, rfl⟩
+  | group ks =>
+    cases hf : (directTags ks).find? (fun t => isB kOnset t || isB kOffset t) with
+    | some t =>
+      have := hdef ks rfl (by simp [hf])
+      cases hd : defExts ks with
+      | nil => exact absurd hd this
+      | cons e es => by_cases ho : isB kOnset t = true <;> simp [classify, hf, hd, ho]
+    | none =>
+      cases hl : ((directTags ks).filter (isB kDuration)).getLast? with
+      | some t =>
+        have := hval ks t rfl hl
+        cases hv : vals t with
+        | none => simp [hv] at this
+        | some v => simp [classify, hf, hl, hv]
+      | none =>
+        by_cases hi : (directTags ks).any (isB kInset) = true <;> simp [classify, hf, hl, hi]
+
+theorem toRows_times {vals : Str → Option Int} {rows : List TextRow} {id : Nat} {rs : List Row}
+    (h : toRows vals id rows = .ok rs) : rs.map (·.time) = rows.map (·.time) := by
+  induction rows generalizing id rs with
+  | nil => simp [toRows] at h; subst h; rfl
+  | cons r rest ih =>
+    cases h1 : rowItems vals id r.nodes with
+    | error e => simp [toRows, h1] at h
+    | ok ab =>
+      cases h2 : toRows vals (id + r.nodes.length) rest with
+      | error e => simp [toRows, h1, h2] at h
+      | ok rs' =>
+        obtain ⟨a, b⟩ := ab
+        simp only [toRows, h1, h2, Except.ok.injEq] at h
+        subst h
+        simp [ih h2]
+
+/-- **valid files are never rejected (text level).** If every top-level group classifies (`classify_ok`), the
+onsets are non-decreasing and C10's temporal machine accepts the file, `EventManager(…)` does not raise. -/
+theorem valid_text_never_rejected (fold : Str → Str) (vals : Str → Option Int) (rows : List TextRow)
+    (rs : List Row) (hrows : toRows vals 0 rows = .ok rs)
+    (hord : nonDecreasing (rows.map (·.time)) = true)
+    (hT : Temporal.run fold [] 0 ((Temporal.timePoints (rs.map toT)).map (·.markers)) = []) :
+    ∃ b, buildText fold vals rows = .ok b := by
+  have hord' : nonDecreasing (rs.map (·.time)) = true := by rw [toRows_times hrows]; exact hord
+  obtain ⟨b, hb⟩ := valid_history_never_rejected fold rs hord' hT
+  exact ⟨b, by simp only [buildText, hord, if_true, hrows, hb]⟩
+
+/-- non-vacuity on text: `(def/A, onset, (Red))` at 1 s, `(Def/a, Offset)` with an Inset group at 2 s -/
+def textSample : List TextRow :=
+  [⟨8, [.group [.tag ['d','e','f','/','A'], .tag ['o','n','s','e','t'], .group [.tag ['R','e','d']]]]⟩,
+   ⟨16, [.group [.tag ['D','e','f','/','a'], .tag ['O','f','f','s','e','t']],
+         .group [.tag ['D','e','f','/','A'], .tag ['I','n','s','e','t'], .group [.tag ['R','e','d']]]]⟩]
+
+example : ∃ b, buildText (fun s => s.map Char.toLower) (fun _ => none) textSample = .ok b ∧
+    b.procs.map (fun p => (p.start, p.stop)) = [(0, some 1)] ∧
+    (baseNodes (table textSample) b 0).map render = [['(','D','e','f','/','A',',','(','R','e','d',')',')']] ∧
+    b.rem = [[], [2]] ∧
+    render (plainNode (table textSample) 2) =
+      ['(','D','e','f','/','A',',','I','n','s','e','t',',','(','R','e','d',')',')'] :=
+  ⟨⟨[8, 16], [⟨0, 0, some 1, ['a'], 0⟩], [[], [2]]⟩, by rfl, by rfl, by rfl, by rfl, by rfl⟩
 
 end HedVerif.C20
